@@ -269,6 +269,16 @@ def main(tier):
         if summ["cases"] != len(bins) * ncases and not unknown:
             raise vf.Infra("ripser_harness cases ran %d of %d cases" % (summ["cases"], len(bins) * ncases))
         ev.parts["replay"] = dict(summ, builds=BUILD_NAMES, forms=forms, simplex_encodings=encs)
+        if unknown:   # the engine already deviates on the bounded model: report now, do not drive it with larger inputs
+            ev.cov["evaluations"] = summ["evaluations"]
+            ev.cov["distinct_nontrivial"] = nontriv
+            ev.cov["rule"] = "stopped after the replay of the bounded model: unknown deviations"
+            fnd.report(PROP)
+            ev.violations = len(unknown)
+            p = vf.save_replay(PROP, "deviations", unknown[:50])
+            ev.write()
+            vf.violation(PROP, p)
+            return 1
 
         # ---- recorded executions validated by the trace specification
         tdir = os.path.join(work, "traces")
